@@ -253,6 +253,20 @@ func (a *arena) anySpare() bool {
 	return false
 }
 
+// longest returns the length of the longest argument of the call (-1: no argument) and whether that argument is read-only
+// with spare capacity behind its length.
+func (a *arena) longest() (n int, spare bool) {
+	n = -1
+	for _, r := range a.regs {
+		for _, p := range r.parts {
+			if p.n > n {
+				n, spare = p.n, p.capEnd > p.off+p.n && !p.writable
+			}
+		}
+	}
+	return n, spare
+}
+
 // layoutClasses names the layout features of the case for the evidence.
 func (a *arena) layoutClasses() []string {
 	out := []string{"layout.isolated"}
